@@ -29,16 +29,24 @@ def run_lru_shard(args):
                 ops.append(['get', hj])
                 real.append({'hit': bool(hit), 'v': val_to_json(v) if hit else None, 'n': len(cache._cache)})
             elif r < 0.9:
-                v = rng.randrange(100)
+                # values incl. None and other falsy ones: a stored None is a hit like any other value
+                v = rng.choice([None, None, 0, '', False, ()]) if rng.random() < 0.3 else rng.randrange(100)
                 cache.set(kh, v, None)
-                ops.append(['set', hj, v])
+                ops.append(['set', hj, val_to_json(v)])
                 real.append({'n': len(cache._cache)})
+                if rng.random() < 0.3:
+                    # direct oracle: the key stored last is among the `size` most recent ones: reading it back is a hit
+                    v2, hit2 = cache.get(kh, None)
+                    ops.append(['get', hj])
+                    real.append({'hit': bool(hit2), 'v': val_to_json(v2) if hit2 else None, 'n': len(cache._cache)})
+                    if not hit2 or v2 is not v:
+                        real[-1]['over'] = f'get right after set({k!r}, {v!r}) returned hit={hit2}, value={v2!r}'
             else:
                 cache.clear()
                 ops.append(['clear'])
                 real.append({'n': len(cache._cache)})
             if size is not None and len(cache._cache) > size:
-                real[-1]['over'] = True
+                real[-1]['over'] = f'MemoryCache(size={size}) holds {len(cache._cache)} entries'
         reqs.append({'op': 'lru', 'size': size, 'ops': ops})
         reals.append(real)
         metas.append({'size': size, 'ops': ops})
@@ -54,7 +62,7 @@ def run_lru_shard(args):
             stats['ops'] += 1
             stats['hits'] += 1 if r.get('hit') else 0
             if r.get('over'):
-                over.append({**meta, 'step': i, 'msg': f'MemoryCache(size={meta["size"]}) holds {r["n"]} entries'})
+                over.append({**meta, 'step': i, 'msg': r['over']})
             rr = {k: v for k, v in r.items() if k != 'over'}
             if canon(rr) != canon(m):
                 bad.append({**meta, 'step': i, 'real': rr, 'model': m})
@@ -310,7 +318,7 @@ def run_columns_faults(args):
                 stats['fault_cases'] += 1
                 for k2 in later:
                     if vals[k2] != canon({'app': ['CF.x', [k2], [], []]}):
-                        problems.append({'desc': desc, 'msg': f'after a failed shard generation x({k2!r}) returned {vals[k2][:100]}'})
+                        problems.append({'desc': desc, 'value': True, 'first_key': key, 'failed_first': failed, 'msg': f'after a failed shard generation x({k2!r}) returned {vals[k2][:100]}'})
                 b2 = Builder(world, roots=[root])
                 p2 = b2.layer(desc)
                 mark = world.mark()
